@@ -13,6 +13,7 @@ FIRST_MISSED = {
     "C04-w3-2", "C05-w3-2", "C08-w3-1", "C08-w3-2", "C09-w3-2", "C10-w3-1", "C10-w3-2", "C11-w3-1", "C20-w3-1", "C20-w3-2",
     "C04-w4-1", "C04-w4-2", "C05-w4-1", "C05-w4-2", "C08-w4-1", "C08-w4-2", "C09-w4-1", "C09-w4-2", "C10-w4-1", "C10-w4-2",
     "C11-w4-1", "C11-w4-2", "C15-w4-2", "C20-w4-1",
+    "C06-w5-1", "C06-w5-2", "C09-w5-1", "C09-w5-2", "C10-w5-1", "C10-w5-2", "C11-w5-1", "C15-w5-1", "C20-w5-2",
 }
 
 WHAT = {
@@ -100,6 +101,24 @@ WHAT = {
     "C15-w4-2": "0-means-no-deadline sentinel: sleeps at or after the deadline are admitted when the context's Err lags",
     "C20-w4-1": "a RootDir that cleans to \".\" counts as unconfigured",
     "C20-w4-2": "confinement approvals memoised per (root, location)",
+    "C04-w5-1": "FunCall delegates to FunCallContext(Background): callbacks of funcall/apply/map/foldl run detached from the evaluation's context",
+    "C04-w5-2": "macros dispatched through MacroCall: expansion-time code runs under the environment's stored context, not the threaded one",
+    "C05-w5-1": "recovered host panic no longer decrements the evaluator nesting",
+    "C05-w5-2": "load restores the package in straight-line code and returns early on error",
+    "C06-w5-1": "ignore-errors exempts errors named context-cancelled",
+    "C06-w5-2": "handler receives the condition's own data cells: in-place changes show in a later rethrow",
+    "C08-w5-1": "use-package skips an exported function the importing package's name index already maps (re-import does not overwrite a shadowing definition)",
+    "C08-w5-2": "macro bodies run in the caller's package",
+    "C09-w5-1": "special-form operands no longer copied: a failing assert writes its evaluated message arguments into the parsed program",
+    "C09-w5-2": "constant schema constraint failures preallocated process-wide (stamped with position and stack by whichever runtime raises them)",
+    "C10-w5-1": "use-package lists all unbound exports in Go map order",
+    "C10-w5-2": "load-string / load-bytes make a relative :name absolute: error positions contain the working directory",
+    "C11-w5-1": "apply with a bare list hands the list's own cells to the callee's &rest parameter",
+    "C11-w5-2": "rest of a vector returns a copy instead of a view",
+    "C15-w5-1": "deadline fail-fast computed with an overflowing sum for enormous durations",
+    "C15-w5-2": ":max below the default no longer caps",
+    "C20-w5-1": "loading-file context taken from the root environment's current location instead of the call's frame",
+    "C20-w5-2": "containment helper accepts a path that is a proper prefix of the root",
 }
 
 
